@@ -232,10 +232,37 @@ def case_named_prefixed(case):
         raise Violation(f"named_prefixed_unit_inconsistent:{name}", f"the definition of {name!r} gives {q.magnitude!r} {u}; its name reads as {p} + {u} = {want} {u}")
 
 
+def case_dimname(case):
+    """derived dimension names and the SI units with special names against oracle/dimtable.py (SI brochure tables, not the definition files)"""
+    from ..oracle.dimtable import BASE_DIM, NAMED_DIMS, NAMED_UNITS
+
+    ureg = env.ureg("Fraction")
+    name = case["name"]
+    if name.startswith("["):
+        want = {BASE_DIM[b]: e for b, e in NAMED_DIMS[name].items()}
+        s, got = attempt(ureg.get_dimensionality, name)
+        if s == "err" or {k: v for k, v in dict(got).items()} != want:
+            raise Violation(f"standard_dimension_differs:{name}", f"get_dimensionality({name!r}) -> {got!r}; SI: {want}")
+        return
+    exps = NAMED_UNITS[name]
+    want = {BASE_DIM[b]: e for b, e in exps.items()}
+    s, got = attempt(lambda: dict(ureg.Unit(name).dimensionality))
+    if s == "err" or got != want:
+        raise Violation(f"standard_dimension_differs:{name}", f"Unit({name!r}).dimensionality -> {got!r}; SI: {want}")
+    s, q = attempt(lambda: ureg.Quantity(1, name).to(ureg.UnitsContainer(exps)))
+    if s == "err" or q.magnitude != 1:
+        raise Violation(f"standard_value_differs:{name}:coherent", f"1 {name} -> {q!r} in SI base units; the SI units with special names are coherent (factor 1)")
+
+
 def run_table(task, tier, seed, col):
     if task["shard"] == 0:
         consistency()
         R = env.R()
+        from ..oracle.dimtable import NAMED_DIMS, NAMED_UNITS
+
+        for name in list(NAMED_DIMS) + list(NAMED_UNITS):
+            col.case(("dimname", name), True, sample={"name": name}, cls="dimension_name")
+            col.run_case(case_dimname, {"name": name})
         for name in R.units:
             for p, u in R.readings(name):
                 if p and u in R.units and u != name:
@@ -269,6 +296,8 @@ def replay(sub, case):
         return case_prefixed_symbol(case)
     if "prefix" in case and "name" in case:
         return case_named_prefixed(case)
+    if set(case) == {"name"}:
+        return case_dimname(case)
     # history-sensitive defects (a factor cached under a wrong key) need the table to have been walked first
     from ..core import Violation as _V
     for r in load_table():
